@@ -318,6 +318,12 @@ static inline void _rand_interpolation(unsigned int i,
   for(k=0, bufW=W, sumW=0.0; k<nn; k++, bufW++)
     sumW += *bufW;
 
+  /* No neighbour with positive weight (all of them masked or padding):
+     nothing to add, as in _tri_interpolation.  Without this guard J[k] below
+     reads a stale (or uninitialised) slot of the Jnn buffer. */
+  if (!(sumW > 0.0))
+    return;
+
   draw = sumW*prng_double(rng);
 
   for(k=0, bufW=W, sumW=0.0; k<nn; k++, bufW++) {
